@@ -2310,6 +2310,130 @@ pub enum DatabaseDescriptor {
     SSTables,
 }
 
+/// One table file of the current version as reported to the verification harness.
+#[cfg(raindb_verif)]
+#[derive(Clone, Debug, PartialEq, Eq)]
+pub struct VerifFileInfo {
+    /// Level the file lives in.
+    pub level: usize,
+    /// File number.
+    pub number: u64,
+    /// File size recorded in the metadata.
+    pub size: u64,
+    /// Smallest key: (user key, sequence number, operation tag).
+    pub smallest: (Vec<u8>, u64, u8),
+    /// Largest key: (user key, sequence number, operation tag).
+    pub largest: (Vec<u8>, u64, u8),
+}
+
+/// Structured view of the database shape for the verification harness (no logic, accessors only).
+#[cfg(raindb_verif)]
+#[derive(Clone, Debug, PartialEq)]
+pub struct VerifShape {
+    /// Files of the current version, level by level in stored order.
+    pub files: Vec<VerifFileInfo>,
+    /// Sorted table numbers referenced by any live version or registered as in use.
+    pub live_tables: Vec<u64>,
+    /// The WAL number recorded by the version set.
+    pub version_wal_number: u64,
+    /// The previous WAL number recorded by the version set, if any.
+    pub version_prev_wal_number: Option<u64>,
+    /// The number of the WAL the database is currently appending to.
+    pub active_wal_number: u64,
+    /// Number of the manifest in use.
+    pub manifest_number: u64,
+    /// Last published sequence number.
+    pub last_sequence: u64,
+    /// Whether an immutable memtable exists.
+    pub has_immutable_memtable: bool,
+    /// Whether background work is scheduled.
+    pub background_scheduled: bool,
+    /// The sticky background error, if any.
+    pub bad_state: Option<RainDBError>,
+    /// Number of live snapshots registered.
+    pub has_snapshots: bool,
+}
+
+/// Accessors for the verification harness. Only compiled under `--cfg raindb_verif`.
+#[cfg(raindb_verif)]
+impl DB {
+    /// Structured shape of the database (see [`VerifShape`]).
+    pub fn verif_shape(&self) -> VerifShape {
+        let db_fields_guard = self.guarded_fields.lock();
+        let current_version = db_fields_guard.version_set.get_current_version();
+        let mut files = vec![];
+        for level in 0..MAX_NUM_LEVELS {
+            for file in current_version.read().element.files[level].iter() {
+                let key_parts = |key: &InternalKey| {
+                    (
+                        key.get_user_key().to_vec(),
+                        key.get_sequence_number(),
+                        key.get_operation() as u8,
+                    )
+                };
+                files.push(VerifFileInfo {
+                    level,
+                    number: file.file_number(),
+                    size: file.get_file_size(),
+                    smallest: key_parts(file.smallest_key()),
+                    largest: key_parts(file.largest_key()),
+                });
+            }
+        }
+        drop(current_version);
+
+        let mut live_tables: Vec<u64> = db_fields_guard
+            .version_set
+            .get_live_files()
+            .into_iter()
+            .chain(db_fields_guard.tables_in_use.iter().copied())
+            .collect();
+        live_tables.sort_unstable();
+        live_tables.dedup();
+
+        VerifShape {
+            files,
+            live_tables,
+            version_wal_number: db_fields_guard.version_set.get_curr_wal_number(),
+            version_prev_wal_number: db_fields_guard.version_set.maybe_prev_wal_number(),
+            active_wal_number: db_fields_guard.curr_wal_file_number,
+            manifest_number: db_fields_guard.version_set.get_manifest_file_number(),
+            last_sequence: db_fields_guard.version_set.get_prev_sequence_number(),
+            has_immutable_memtable: db_fields_guard.maybe_immutable_memtable.is_some(),
+            background_scheduled: db_fields_guard.background_compaction_scheduled,
+            bad_state: db_fields_guard.maybe_bad_database_state.clone(),
+            has_snapshots: !db_fields_guard.snapshots.is_empty(),
+        }
+    }
+
+    /**
+    Block until no background work is scheduled and no immutable memtable exists, or until a
+    sticky background error is recorded. Returns true if the database quiesced without an error.
+    */
+    pub fn verif_wait_quiescent(&self) -> bool {
+        let mut db_fields_guard = self.guarded_fields.lock();
+        while (db_fields_guard.background_compaction_scheduled
+            || db_fields_guard.maybe_immutable_memtable.is_some())
+            && db_fields_guard.maybe_bad_database_state.is_none()
+        {
+            self.background_work_finished_signal
+                .wait(&mut db_fields_guard);
+        }
+
+        db_fields_guard.maybe_bad_database_state.is_none()
+    }
+
+    /// Force a flush of the current memtable (the crate-private `force_memtable_compaction`).
+    pub fn verif_flush(&self) -> RainDBResult<()> {
+        self.force_memtable_compaction()
+    }
+
+    /// The options the database was opened with.
+    pub fn verif_options(&self) -> &DbOptions {
+        &self.options
+    }
+}
+
 #[cfg(test)]
 mod db_test;
 
